@@ -236,6 +236,7 @@ class SymEval:
         self._stmt = None
         self.selfname = selfname if selfname is not None else (func.params[0] if func.cls and not func.is_static and func.params else None)
         self.unsupported: list[ast.AST] = []
+        self.format_tables: list = []  # (table length, index term, sep, spec) for T[i] normalised to f'{sep}{i:spec}'
         self.loop_info: dict = {}
         self.final: State | None = None
         self._snapshots: dict = {}  # try id -> list of env snapshots taken before each possibly-raising statement
@@ -841,6 +842,13 @@ class SymEval:
                     return ("idx", base, idx)
             if base[0] in ("tuple", "list") and isinstance(idx[1], int) and -len(base[1]) <= idx[1] < len(base[1]):
                 return base[1][idx[1]]
+        seq = base[1] if is_const(base) else (base[1].v if base[0] == "gval" else None)
+        if isinstance(seq, (tuple, list)) and len(seq) >= 2 and not is_const(idx):
+            fmt = _format_table(seq)
+            if fmt is not None:
+                # a constant table with T[i] == f"{sep}{i:spec}" for every i it holds: the formatted index, defined for i < len(T) only
+                self.format_tables.append((len(seq), idx, fmt[0], fmt[1]))
+                return ("fstr", (const(fmt[0]), ("fmt", idx, fmt[1], -1)))
         return ("idx", base, idx)
 
     def binop(self, sym, a, b):
@@ -1209,3 +1217,19 @@ def show(t, depth=0) -> str:
     if k == "loop" or k == "loopout":
         return f"{k}:{t[1]}:{t[2]}"
     return "<" + " ".join(show(x) if isinstance(x, tuple) else str(x) for x in t) + ">"
+
+
+def _format_table(seq):
+    """(sep, spec) if every entry i of the sequence is sep + format(i, spec) for a zero-padded decimal spec, else None."""
+    if not all(isinstance(x, str) for x in seq):
+        return None
+    first = seq[0]
+    digits = len(first) - len(first.rstrip("0123456789"))
+    if digits == 0:
+        return None
+    sep = first[: len(first) - digits]
+    spec = f"0{digits}d" if digits > 1 else "d"
+    for i, x in enumerate(seq):
+        if x != sep + format(i, spec):
+            return None
+    return sep, spec
